@@ -654,3 +654,75 @@ def run_sysq(arg):
         out['error'] = 'exception: %s\n%s' % (e, traceback.format_exc()[-1500:])
     out['wall_s'] = round(time.time() - t_start, 1)
     return out
+
+
+def shared_waits_in_build_future(arg):
+    """The build future of a build target (builder::build_target inside incremental::run, as launched by the real actor): on no
+    feasible path does it wait for its script's process while holding a process-wide object (a lock or a slot of a channel living
+    in a static) -- with one slot (one CPU) an unrelated build would wait for this one."""
+    tier, repo = arg
+    t0 = time.time()
+    out = {'obligations': [], 'error': None, 'functions': [], 'paths': 0}
+    try:
+        prog = Program(repo)
+        sysm = System(prog, ['build'], False, qcap=4)
+        bf = sysm.bfs[0]
+        out['functions'] = sorted(bf.sc.I.stats['fns'])
+        ob = {'name': 'build_future_holds_nothing_shared_while_its_script_runs', 'verdict': 'unsat', 'checked_paths': 0, 'shared_objects_seen': []}
+        seen = set()
+        s = z3.Solver()
+        s.set('timeout', 60000)
+
+        def walk(sums, held, conds):
+            for ps in sums:
+                h = dict(held)
+                for kind, data in ps.effects:
+                    if kind == 'lock' and data.get('name'):
+                        h[data['gid']] = data['name']
+                        seen.add('%s %s' % (data.get('obj'), data['name']))
+                    elif kind == 'unlock':
+                        h.pop(data.get('gid'), None)
+                c = ps.cond
+                cs = conds + ([] if c is True else [c])
+                ob['checked_paths'] += 1
+                if ps.outcome == 'suspend':
+                    waits_for_process = any(a.get('kind') == 'status' for a in ps.info.get('arms', [])) if isinstance(ps.info, dict) else False
+                    if h and waits_for_process and ob['verdict'] != 'sat':
+                        s.push()
+                        for x in cs:
+                            s.add(x if not isinstance(x, bool) else z3.BoolVal(x))
+                        r = s.check()
+                        s.pop()
+                        if r == z3.sat:
+                            ob['verdict'] = 'sat'
+                            ob['held'] = sorted(set(h.values()))
+                            ob['detail'] = 'the build future waits for its script while holding %s' % ', '.join(sorted(set(h.values())))
+                    node = getattr(ps, 'next', None)
+                    if node is not None:
+                        for key, sub in node.edges.items():
+                            walk(sub, h, cs)
+        walk(bf.sc.first, {}, [])
+        ob['shared_objects_seen'] = sorted(seen)
+        out['obligations'].append(ob)
+    except Unsupported as e:
+        out['error'] = 'unsupported: %s' % e
+    except Exception as e:   # pragma: no cover
+        out['error'] = 'exception: %s\n%s' % (e, traceback.format_exc()[-1500:])
+    out['wall_s'] = round(time.time() - t0, 1)
+    return out
+
+
+def native_two_independent_builds(repo, cpus='0'):
+    """Real code, one CPU visible: two unrelated builds, the first one's script never ends; the second must still be started."""
+    import shutil
+    import tempfile
+    from ..native import build_native, run_native
+    binpath, _ = build_native(repo)
+    d = tempfile.mkdtemp(prefix='zx-c17b-', dir=os.environ.get('VERIF_SCRATCH', '/var/tmp'))
+    try:
+        open(d + '/zinoma.yml', 'w').write('targets:\n  t0:\n    build: echo t0\n  t1:\n    build: echo t1\n')
+        r = run_native(binpath, d, ['t0', 't1'], None, timeout=60, extra_env={'ZX_HANG_SCRIPT': 'echo t0', 'ZX_TASKSET': cpus})
+        spawned = [l.split('script="echo ')[1].rstrip('"') for l in r['log'] if l.startswith('proc_spawn') and 'script="echo ' in l]
+        return {'rc': r['rc'], 'spawned': spawned, 'cpus': cpus, 'stderr': r['stderr'][-200:]}
+    finally:
+        shutil.rmtree(d, ignore_errors=True)
